@@ -301,6 +301,17 @@ def monitor(case: str, out: str) -> list[str]:
 # ------------------------------------------------------------------------------------------------
 # cases
 
+
+def extra_obligations():
+    """`_SyncCache.__call__/__method_call__` and `_AsyncCache.__call__/__method_call__` regenerated from /repo's caching.py as
+    MiniPy terms (the two async entry points here); Lean re-checks that each, run on the image of a model table with the clock, the computed key and
+    the function's behaviour as parameters, ends in the image of `Cache.call` with its answer: hit = the stored product and
+    most recent afterwards, an entry past its expiry dropped, a miss invokes exactly once, the oldest entry evicted beyond `limit`"""
+    from harness import core, regen
+
+    return [e for e in regen.check("cache", core.REPO, core.LEAN) if ".async_" in e["name"]]
+
+
 def corpus():
     base = [
         "1 - f call:0 call:0 call:0 run cancel:1 fin:0:x run",                 # shared failure, middle waiter cancelled
